@@ -22,6 +22,13 @@ Proof.
   - destruct p; discriminate.
   - rewrite <- E, existsb_app. simpl. rewrite orb_true_r. apply upto_repeat.
 Qed.
+Lemma stop_count_none fl len : existsb (fun b : bool => b) fl = false -> stop_count fl len = len.
+Proof. intro H. unfold stop_count. destruct fl; [reflexivity|]. rewrite H. reflexivity. Qed.
+Lemma forallb_firstn {A} (p : A -> bool) m l : forallb p l = true -> forallb p (firstn m l) = true.
+Proof.
+  revert m. induction l as [|x l IH]; intros [|m] H; simpl in *; try reflexivity.
+  apply andb_true_iff in H as [H1 H2]. rewrite H1, (IH m H2). reflexivity.
+Qed.
 Lemma firstn_snoc_exact {A} (pre : list A) w rest : firstn (S (length pre)) (pre ++ w :: rest) = pre ++ [w].
 Proof. induction pre as [|a pre IH]; simpl; [reflexivity | f_equal; exact IH]. Qed.
 
@@ -1108,8 +1115,11 @@ Proof.
     rewrite Hlive, Nat.eqb_refl. cbn [andb].
     rewrite <- Hre, bool_eqb_refl.
     destruct (k_raised c) eqn:Er; cbn [orb andb].
-    + apply (list_eqb_spec _ Nat.eqb_eq). rewrite Hstops. unfold stop_count, cU, unreaped_of. fold n. fold K.
-      destruct (main_stops (k_log c)); reflexivity.
+    + fold (unreaped_of K (joins (k_log c))). rewrite Hstops. unfold cU. fold n. fold K.
+      apply andb_true_iff. split.
+      * apply forallb_firstn. apply unreaped_lt.
+      * destruct (existsb (fun b : bool => b) (main_stops (k_log c))) eqn:Ee; [reflexivity|].
+        rewrite (stop_count_none _ _ Ee), firstn_all. apply forallb_memb_self.
     + destruct Hstops as [-> ->]. reflexivity.
   - rewrite Hsem. reflexivity.
   - apply mon_sectb. fold n. fold K. rewrite Hmon, Hsem. reflexivity.
